@@ -25,6 +25,11 @@ Width(row) ==
       [] row.k = "i2h" -> Len(row.x)
       [] row.k = "imin" -> Len(row.t)
       [] row.k = "fma" -> Len(row.x)
+      [] row.k = "tri" -> Len(row.x)
+      [] row.k = "pair" -> Len(row.x)
+      [] row.k = "sf2h" -> Len(row.hi)
+      [] row.k = "lim" -> Len(row.t)
+      [] row.k = "lit" -> Len(row.t)
       [] OTHER -> 0
 
 Init == l \in 2..Len(Tab) /\ j = 1
@@ -48,6 +53,16 @@ ClassCode(h) == CASE FpClassify(h) = "zero" -> 0 [] FpClassify(h) = "subnormal" 
                   [] FpClassify(h) = "infinite" -> 3 [] FpClassify(h) = "nan" -> 4
 
 IntOK(h, mode, got) == IsFinite(h) => got = IntVal(h, mode)      \* C leaves the result for inf/NaN (not representable) unspecified
+
+(* the rounding direction of the calling thread while the row was evaluated: 0 to nearest (default), 1 upward,   *)
+(* 2 downward, 3 toward zero.  Everything in Half.tla is specified independently of it, except what C defines    *)
+(* to follow it: rint, nearbyint, lrint, llrint.  The library documents those as rounding to nearest regardless  *)
+(* ("half's internal rounding mode"), C as following the direction; under a non-default direction both answers   *)
+(* are accepted (the property quantifies over inputs in the default environment only).                            *)
+RowRM(row) == IF "rm" \in DOMAIN row THEN row.rm ELSE 0
+DirMode(rm) == CASE rm = 1 -> "ceil" [] rm = 2 -> "floor" [] rm = 3 -> "trunc" [] OTHER -> "even"
+RintOK(row, h, r) == SameH(r, Rint(h)) \/ (RowRM(row) # 0 /\ SameH(r, RoundToIntegral(h, DirMode(RowRM(row)))))
+LrintOK(row, h, r) == IntOK(h, "even", r) \/ (RowRM(row) # 0 /\ IntOK(h, DirMode(RowRM(row)), r))
 
 C08Unary == {"neg", "pos", "fabs", "abs", "sqrt", "isnan", "isinf", "isfinite", "isnormal", "signbit", "fpclassify",
              "h2f", "h2d", "h2ld", "h2i", "hash", "roundtrip", "incdec"}
@@ -94,12 +109,12 @@ UnaryOK(row, c) ==
       [] f = "floor" -> SameH(r, Floor(h))
       [] f = "trunc" -> SameH(r, Trunc(h))
       [] f = "round" -> SameH(r, Round(h))
-      [] f = "rint"  -> SameH(r, Rint(h))
-      [] f = "nearbyint" -> SameH(r, Rint(h))
+      [] f = "rint"  -> RintOK(row, h, r)
+      [] f = "nearbyint" -> RintOK(row, h, r)
       [] f = "lround"  -> IntOK(h, "round", r)
       [] f = "llround" -> IntOK(h, "round", r)
-      [] f = "lrint"   -> IntOK(h, "even", r)
-      [] f = "llrint"  -> IntOK(h, "even", r)
+      [] f = "lrint"   -> LrintOK(row, h, r)
+      [] f = "llrint"  -> LrintOK(row, h, r)
       [] f = "frexp" -> LET t == Frexp(h) IN SameH(r, t.f) /\ (t.edef => row.r2[c] = t.e)
       [] f = "modf"  -> LET t == Modf(h) IN SameH(r, t.frac) /\ SameH(row.r2[c], t.int)
       [] f = "ilogb" -> LET t == Ilogb(h) IN
@@ -108,6 +123,13 @@ UnaryOK(row, c) ==
                           /\ (t.k = "inf"  => row.r3[c] = 1)       \* INT_MAX
                           /\ (t.k = "nan"  => row.r4[c] = 1) )     \* FP_ILOGBNAN
       [] f = "logb"  -> SameH(r, Logb(h))
+      [] f = "cbrt_full" -> SameH(r, Cbrt(h))
+      \* stream I/O: the text written by operator<< (precision 9), read back by strtof, is the exact float value;
+      \* the same text read by operator>> gives the half back (r4 = 1: the extraction succeeded; libstdc++ does not
+      \* parse "inf"/"nan", so only finite halves are read back)
+      [] f = "stream" -> LET t == ToFloat(h) IN
+                      /\ (IF IsNaN(h) THEN IsNaN32(r, row.r2[c]) ELSE r = F32Hi(t) /\ row.r2[c] = F32Lo(t))
+                      /\ (IsFinite(h) => row.r4[c] = 1 /\ row.r3[c] = h)
       [] f = "sincos" -> MeetsSpecial(Special1("sin", h), r) /\ MeetsSpecial(Special1("cos", h), row.r2[c])
       [] f \in TransUnary -> MeetsSpecial(Special1(f, h), r)
       [] OTHER -> FALSE
@@ -119,10 +141,8 @@ CmpMaskQuiet(a, b) ==
       64 * Bool(Gt(a, b)) + 128 * Bool(Ge(a, b)) + 256 * Bool(Lt(a, b)) + 512 * Bool(Le(a, b))
     + 1024 * Bool(LessGreater(a, b)) + 2048 * Bool(Unordered(a, b))
 
-BinaryOK(row, c) ==
+BinaryOKab(row, c, a, b) ==
     LET f == row.f
-        a == row.a
-        b == Hdr.S[c]
         r == row.r[c]
     IN
     CASE f \in {"add", "add_eq"} -> SameH(r, Add(a, b))
@@ -151,6 +171,8 @@ BinaryOK(row, c) ==
       [] f = "hypot_full" -> SameH(r, Hypot(a, b))
       [] OTHER -> FALSE
 
+BinaryOK(row, c) == BinaryOKab(row, c, row.a, Hdr.S[c])
+
 (* ------------------------------------------------------------- conversions *)
 F2HOK(row, c) ==
     LET hi == row.hi[c]  lo == row.lo[c]
@@ -171,6 +193,47 @@ I2HOK(row, c) ==
     /\ (row.r4[c] # -1 => row.r4[c] = e)
     /\ (row.r5[c] # -1 => row.r5[c] = e)
 
+(* std::numeric_limits<half>, the macros HUGE_VALH / HLF_ROUNDS / FP_FAST_FMAH and nanh(): item t of the   *)
+(* driver's table (see harness/half/driver.cpp, limits_item) against the parameters Half.tla derives from *)
+(* the encoding.  Items that are implementation choices (traps, tinyness_before, is_modulo,               *)
+(* has_denorm_loss) are recorded but not judged.                                                           *)
+LimitOK(t, r) ==
+    CASE t = 0 -> r = 1                       \* is_specialized
+      [] t = 1 -> r = 1                       \* is_signed
+      [] t = 2 -> r = 0                       \* is_integer
+      [] t = 3 -> r = 0                       \* is_exact
+      [] t = 4 -> r = 1                       \* is_bounded
+      [] t = 5 -> r = 1                       \* is_iec559
+      [] t = 6 -> r = 1                       \* has_infinity
+      [] t = 7 -> r = 1                       \* has_quiet_NaN
+      [] t = 8 -> r = 1                       \* has_signaling_NaN
+      [] t = 9 -> r = 1                       \* has_denorm == denorm_present
+      [] t = 10 -> r = 1                      \* round_style == round_to_nearest (the property: conversions and arithmetic round to nearest)
+      [] t = 11 -> r = LimDigits
+      [] t = 12 -> r = LimDigits10
+      [] t = 13 -> r = LimMaxDigits10
+      [] t = 14 -> r = 2                      \* radix
+      [] t = 15 -> r = LimMinExp
+      [] t = 16 -> r = LimMinExp10
+      [] t = 17 -> r = LimMaxExp
+      [] t = 18 -> r = LimMaxExp10
+      [] t = 19 -> r = LimMin
+      [] t = 20 -> r = LimLowest
+      [] t = 21 -> r = LimMax
+      [] t = 22 -> r = LimEpsilon
+      [] t = 23 -> r = LimRoundError
+      [] t = 24 -> r = PosInf                 \* infinity()
+      [] t = 25 -> IsQuietNaN(r)              \* quiet_NaN()
+      [] t = 26 -> IsSignallingNaN(r)         \* signaling_NaN()
+      [] t = 27 -> r = LimDenormMin
+      [] t = 28 -> r = PosInf                 \* HUGE_VALH
+      [] t = 29 -> r = 1                      \* HLF_ROUNDS (as FLT_ROUNDS: 1 = to nearest)
+      [] t \in 30..33 -> IsQuietNaN(r)        \* nanh("") nanh("1") nanh("abc") nanh of a long tag: a quiet NaN (C 7.12.11.2)
+      [] t = 34 -> r = 1                      \* sizeof(half) == 2
+      [] t = 35 -> r = PosZero                \* half() value-initialises to +0
+      [] t \in 36..39 -> TRUE                 \* traps, tinyness_before, is_modulo, has_denorm_loss: not judged
+      [] OTHER -> FALSE
+
 (* the most negative value of signed char (t = 0), short (1); int, long, long long overflow to -infinity *)
 TypeMin(t) == IF t = 0 THEN FromInt(-128) ELSE IF t = 1 THEN FromInt(-32768) ELSE NegInf
 
@@ -187,6 +250,15 @@ Conforms ==
       [] row.k = "i2h" -> I2HOK(row, j)
       [] row.k = "imin" -> row.r[j] = TypeMin(row.t[j])
       [] row.k = "fma" -> SameH(row.r[j], Fma(row.x[j], row.y[j], row.z[j]))
+      [] row.k = "tri" -> Hypot3OK(row.x[j], row.y[j], row.z[j], row.r[j])
+      [] row.k = "pair" -> BinaryOKab(row, j, row.x[j], row.y[j])
+      \* operator>> applied to the exact decimal expansion of a finite float
+      [] row.k = "sf2h" -> LET hi == row.hi[j] IN
+                           row.r2[j] = 1 /\ SameH(row.r[j], FromFloat(hi \div 32768, (hi % 32768) \div 128, (hi % 128) * 65536 + row.lo[j]))
+      [] row.k = "lim" -> LimitOK(row.t[j], row.r[j])
+      \* a _h literal: r2..r5 are the limbs of the literal's value as a double (exactly representable by construction)
+      [] row.k = "lit" -> LET w3 == row.r2[j] IN
+                          SameH(row.r[j], FromDouble(w3 \div 32768, (w3 % 32768) \div 16, (w3 % 16) * 65536 + row.r3[j], row.r4[j], row.r5[j]))
       [] OTHER -> FALSE
 
 (* what a counterexample shows *)
@@ -200,6 +272,11 @@ Operands ==
       [] row.k = "d2h" -> << row.w3[j], row.w2[j], row.w1[j], row.w0[j] >>
       [] row.k = "i2h" -> << row.x[j] >>
       [] row.k = "fma" -> << row.x[j], row.y[j], row.z[j] >>
+      [] row.k = "tri" -> << row.x[j], row.y[j], row.z[j] >>
+      [] row.k = "pair" -> << row.x[j], row.y[j] >>
+      [] row.k = "sf2h" -> << row.hi[j], row.lo[j] >>
+      [] row.k = "lim" -> << row.t[j] >>
+      [] row.k = "lit" -> << row.t[j] >>
       [] OTHER -> << >>
 
 (* the specified value of the first result, where the specification is a value *)
@@ -214,10 +291,12 @@ Expected ==
                [] f = "frexp" -> << Frexp(h) >> [] f = "modf" -> << Modf(h) >> [] f = "ilogb" -> << Ilogb(h) >>
                [] f = "logb" -> << Logb(h) >> [] f = "h2f" -> << ToFloat(h) >> [] f \in {"h2d", "h2ld"} -> << ToDouble(h) >>
                [] f = "sincos" -> << Special1("sin", h), Special1("cos", h) >>
+               [] f = "cbrt_full" -> << Cbrt(h) >> [] f = "stream" -> << ToFloat(h), h >>
                [] f \in TransUnary -> << Special1(f, h) >>
                [] OTHER -> << "see HalfCheck!UnaryOK" >> )
-      [] row.k = "bin" ->
-           LET a == row.a  b == Hdr.S[j] IN
+      [] row.k \in {"bin", "pair"} ->
+           LET a == IF row.k = "bin" THEN row.a ELSE row.x[j]
+               b == IF row.k = "bin" THEN Hdr.S[j] ELSE row.y[j] IN
            ( CASE f \in {"add", "add_eq", "add_f"} -> << Add(a, b) >> [] f \in {"sub", "sub_eq", "sub_f"} -> << Sub(a, b) >>
                [] f \in {"mul", "mul_eq", "mul_f"} -> << Mul(a, b) >> [] f \in {"div", "div_eq", "div_f"} -> << Div(a, b) >>
                [] f = "cmp" -> << CmpMask(a, b) + CmpMaskQuiet(a, b), CopySign(a, b), Eq(a, b), CmpMask(a, b) >>
@@ -233,6 +312,11 @@ Expected ==
       [] row.k = "i2h" -> << FromInt(row.x[j]) >>
       [] row.k = "imin" -> << TypeMin(row.t[j]) >>
       [] row.k = "fma" -> << Fma(row.x[j], row.y[j], row.z[j]) >>
+      [] row.k = "tri" -> << IF Hypot3OK(row.x[j], row.y[j], row.z[j], PosInf) THEN PosInf ELSE IF Hypot3OK(row.x[j], row.y[j], row.z[j], QNaN) THEN QNaN
+                                ELSE HypotFinite3(row.x[j], row.y[j], row.z[j]) >>
+      [] row.k = "sf2h" -> LET hi == row.hi[j] IN << FromFloat(hi \div 32768, (hi % 32768) \div 128, (hi % 128) * 65536 + row.lo[j]) >>
+      [] row.k = "lim" -> << "see HalfCheck!LimitOK" >>
+      [] row.k = "lit" -> LET w3 == row.r2[j] IN << FromDouble(w3 \div 32768, (w3 % 32768) \div 16, (w3 % 16) * 65536 + row.r3[j], row.r4[j], row.r5[j]) >>
       [] OTHER -> << >>
 
 Recorded ==
@@ -241,6 +325,6 @@ Recorded ==
     IN  << row.r[j] >> \o (IF "r2" \in D THEN << row.r2[j] >> ELSE << >>) \o (IF "r3" \in D THEN << row.r3[j] >> ELSE << >>)
                      \o (IF "r4" \in D THEN << row.r4[j] >> ELSE << >>) \o (IF "r5" \in D THEN << row.r5[j] >> ELSE << >>)
 
-Explain == [l |-> l, j |-> j, k |-> Tab[l].k, f |-> Tab[l].f, operands |-> Operands, recorded |-> Recorded, expected |-> Expected]
+Explain == [l |-> l, j |-> j, k |-> Tab[l].k, f |-> Tab[l].f, rm |-> RowRM(Tab[l]), operands |-> Operands, recorded |-> Recorded, expected |-> Expected]
 
 =============================================================================
